@@ -71,7 +71,14 @@ TReconEnd ==
   /\ applying' = FALSE /\ want' = <<>> /\ nleft' = 0
   /\ UNCHANGED <<vars, skip, dead, known>>
 
-RTraceNext == RTReset \/ (TDead /\ RUnch) \/ (TPanic /\ RUnch) \/ (TAddBegin /\ RUnch) \/ (TTry /\ RUnch)
+\* the same reconciler asked again once the RIBs are equal, with a lower counter: nothing, and the counter is left alone
+TRecon2 ==
+  /\ ~dead /\ IsEvent("recon2")
+  /\ Report(Flag(Ev.error # "", "reconError") \cup Flag(Ev.error = "" /\ Ev.nops # 0, "reconEqualNotEmpty")
+            \cup Flag(Ev.error = "" /\ Ev.after # Ev.base2 + Ev.nops, "reconIds"))
+  /\ UNCHANGED <<vars, skip, dead, known, applying, want, nleft>>
+
+RTraceNext == TRecon2 \/ (TFlush /\ RUnch) \/ RTReset \/ (TDead /\ RUnch) \/ (TPanic /\ RUnch) \/ (TAddBegin /\ RUnch) \/ (TTry /\ RUnch)
               \/ RTAddEnd \/ RTCallErr \/ RTDelete \/ (TSnapCheck /\ RUnch) \/ TRecon \/ TReconEnd
 
 RTraceSpec == RTraceInit /\ [][RTraceNext]_rtvars
